@@ -527,6 +527,12 @@ func (g *encGen) field(d int) encField {
 	case k == 15 || k == 16:
 		e := g.errv(2)
 		return encField{F: "error", Key: g.key(), Calls: []encCall{}, E: &e}
+	case k == 17 && r.Chance(1, 2):
+		es := []encErrV{}
+		for i := r.Intn(4); i > 0; i-- {
+			es = append(es, g.errv(1))
+		}
+		return encField{F: "errors", Key: g.key(), Calls: []encCall{}, Errs: es}
 	case k == 17:
 		return encField{F: "ns", Key: g.key(), Calls: []encCall{}}
 	case k == 18:
